@@ -67,7 +67,11 @@ Shallow(c, s, p) ==
          ELSE IF IsJunk(snd) THEN <<"undef", "integer variable holds a destroyed or never-written value in the generated code">>
          ELSE <<"env", "integer variable differs">>)
      ELSE IF e.v.t = "obj" THEN
-        (IF snd.t = "int" /\ AXtorPos(QQ(c), e.ty, e.v.tag) >= 0 /\ snd.w = FromNat(JumpLen * AXtorPos(QQ(c), e.ty, e.v.tag)) THEN <<"", "">>
+        \* the machine word that stands for a constructor is not prescribed (today: position * jump length): it is learnt at first
+        \* sight, must be the same word ever after and must differ from the words of the other constructors of the type
+        (IF snd.t = "int" /\ AXtorPos(QQ(c), e.ty, e.v.tag) >= 0 /\
+            (IF e.ty \in DOMAIN s.tags /\ e.v.tag \in DOMAIN s.tags[e.ty] THEN s.tags[e.ty][e.v.tag] = snd.w
+             ELSE e.ty \notin DOMAIN s.tags \/ \A x \in DOMAIN s.tags[e.ty] : s.tags[e.ty][x] # snd.w) THEN <<"", "">>
          ELSE IF IsJunk(snd) THEN <<"undef", "constructor tag holds a destroyed or never-written value in the generated code">>
          ELSE <<"env", "constructor tag differs">>)
      ELSE IF e.v.t = "clo" THEN
@@ -83,6 +87,15 @@ Learn(s) ==
                                       /\ TempVal(s, Cfg.temps[p].snd).t = "code"}
   IN [nd \in {m.env[p].v.node : p \in clos} |->
         TempVal(s, Cfg.temps[CHOOSE p \in clos : m.env[p].v.node = nd].snd).l] @@ s.tab
+
+\* learn the words of constructors seen for the first time (one new constructor per type and marker is enough: the rest follows at the next marker)
+LearnTags(s) ==
+  LET m == s.m
+      news == {p \in 1..Len(m.env) : m.env[p].chi # "ext" /\ m.env[p].v.t = "obj" /\ TempVal(s, Cfg.temps[p].snd).t = "int"
+                                      /\ ~(m.env[p].ty \in DOMAIN s.tags /\ m.env[p].v.tag \in DOMAIN s.tags[m.env[p].ty])}
+      tys == {m.env[p].ty : p \in news}
+      pick(ty) == CHOOSE p \in news : m.env[p].ty = ty
+  IN [ty \in tys |-> (m.env[pick(ty)].v.tag :> TempVal(s, Cfg.temps[pick(ty)].snd).w) @@ (IF ty \in DOMAIN s.tags THEN s.tags[ty] ELSE <<>>)] @@ s.tags
 
 Roots(s) ==
   LET m == s.m ps == {p \in 1..Len(m.env) : m.env[p].chi # "ext"}
@@ -124,7 +137,7 @@ Sync(c, s) ==
                             w[2] \o (IF s.aftercall THEN " right after a call of the print runtime" ELSE "") \o " (at " \o n.k \o ")")
                ELSE LET tab2 == Learn(s)
                         m2 == AStep(QQ(c), m, TRUE)
-                        s2 == [s EXCEPT !.m = m2, !.tab = tab2, !.peak = peak, !.F = hv.F, !.aftercall = FALSE, !.freeSet = hv.linearSet \cup hv.deferredSet,
+                        s2 == [s EXCEPT !.m = m2, !.tab = tab2, !.tags = LearnTags(s), !.peak = peak, !.F = hv.F, !.aftercall = FALSE, !.freeSet = hv.linearSet \cup hv.deferredSet,
                                         !.fin = [hp |-> s.regs[Cfg.heap.r].b, fp |-> s.regs[Cfg.free.r].b, nlin |-> hv.nlinear,
                                                  ndef |-> hv.ndeferred, reach |-> hv.reach, F |-> hv.F],
                                         !.cov = [maxenv |-> IF Len(m.env) > s.cov.maxenv THEN Len(m.env) ELSE s.cov.maxenv,
@@ -137,7 +150,7 @@ Sync(c, s) ==
 
 PInit(c) ==
   [IsaInit(PP(c), Cases[c].args, Cfg.nblocks) EXCEPT !.strict = Cfg.strict_encode]
-    @@ [c |-> c, m |-> AInit(QQ(c), Cases[c].args), marks |-> 0, tab |-> <<>>, peak |-> 0, F |-> 0, aftercall |-> FALSE, freeSet |-> {}, fin |-> [hp |-> 0, fp |-> 0, nlin |-> 0, ndef |-> 0, reach |-> 0, F |-> 0],
+    @@ [c |-> c, m |-> AInit(QQ(c), Cases[c].args), marks |-> 0, tab |-> <<>>, tags |-> <<>>, peak |-> 0, F |-> 0, aftercall |-> FALSE, freeSet |-> {}, fin |-> [hp |-> 0, fp |-> 0, nlin |-> 0, ndef |-> 0, reach |-> 0, F |-> 0],
         cov |-> [maxenv |-> 0, maxdef |-> 0, maxlin |-> 0, maxshared |-> 0]]
 
 PStep(s) ==
